@@ -9,6 +9,7 @@
 (V) AddrScriptEval "fwd"/"rev": everything the implementation answered (lock_script, script_type, address,
     public_hash, refusal) is judged by TLC, in both directions.  Python transports values, TLC decides.
 """
+import json
 import os
 import time
 
@@ -21,7 +22,77 @@ NETS = ['bitcoin', 'testnet', 'testnet4', 'signet', 'regtest', 'litecoin', 'lite
 JVM_ENV = {'JAVA_TOOL_OPTIONS': '-Xss48m'}       # the Bech32 folds recurse deeper than the default 1 MB thread stack
 OBJ_ROUTES = ('parse', 'parse_nw', 'obj', 'obj_data', 'hdkey', 'tx_obj', 'tx_hdkey', 'akey', 'tx_akey')
 HASH_TYPES = ('p2pkh', 'p2sh', 'p2wpkh', 'p2wsh', 'p2tr', 'p2sh_p2wpkh', 'p2sh_p2wsh')
-KEY_ROUTES = ('hdkey', 'tx_hdkey', 'akey', 'tx_akey')     # akey: the key's Address object (key.address_obj) is handed over
+KEY_ROUTES = ('hdkey', 'tx_hdkey', 'akey', 'tx_akey')
+# scripts that reach an Output by parsing: a raw transaction (one dummy input, the scripts as outputs) / a raw block
+PARSE_ROUTES = ('p_str', 'p_bytes', 'p_bio', 'p_hex', 'p_bytes2', 'p_bio2', 'blk', 'blk_bytes', 'blk_bio')
+REV_ROUTES = ('lock', 'lock_ns', 'parse_out', 'tx_lock') + PARSE_ROUTES
+ANY_ROUTES = ('tx_hash', 'tx_pubkey')      # add_output without a script type: the library chooses among candidates
+
+
+def _vi(n):
+    return bytes([n]) if n < 253 else b'\xfd' + n.to_bytes(2, 'little')
+
+
+def raw_transaction(scripts):
+    """Input generator only (wire format is C06's subject): version 1, one input without script, the given locking
+    scripts as outputs of 1000 units each, locktime 0."""
+    r = (1).to_bytes(4, 'little') + _vi(1) + bytes(range(32)) + bytes(4) + _vi(0) + b'\xff' * 4 + _vi(len(scripts))
+    for sc in scripts:
+        r += (1000).to_bytes(8, 'little') + _vi(len(sc)) + sc
+    return r + bytes(4)
+
+
+def raw_block(rawtx):
+    return ((1).to_bytes(4, 'little') + bytes(32) + bytes(32) + (1600000000).to_bytes(4, 'little') +
+            (0x1d00ffff).to_bytes(4, 'little') + bytes(4) + _vi(1) + rawtx)
+
+
+def parse_outputs(route, raw, network):
+    """Parse raw through one public entry point, network named (str) or left to the default (None); list of Outputs."""
+    from io import BytesIO
+    from bitcoinlib.transactions import Transaction
+    from bitcoinlib.blocks import Block
+    kw = {} if network is None else {'network': network}
+    if route == 'p_str':
+        return Transaction.parse(raw.hex(), **kw).outputs
+    if route == 'p_bytes':
+        return Transaction.parse(raw, **kw).outputs
+    if route == 'p_bio':
+        return Transaction.parse(BytesIO(raw), **kw).outputs
+    if route == 'p_hex':
+        return Transaction.parse_hex(raw.hex(), **kw).outputs
+    if route == 'p_bytes2':
+        return Transaction.parse_bytes(raw, **kw).outputs
+    if route == 'p_bio2':
+        return Transaction.parse_bytesio(BytesIO(raw), **kw).outputs
+    blk = raw_block(raw)
+    if route == 'blk':
+        b = Block.parse(blk, parse_transactions=True, **kw)
+    elif route == 'blk_bytes':
+        b = Block.parse_bytes(blk, parse_transactions=True, **kw)
+    else:
+        b = Block.parse_bytesio(BytesIO(blk), parse_transactions=True, **kw)
+    return b.transactions[0].outputs
+
+
+def drive_parsers(jobs, keys, built):
+    """All scripts of one (parse route, network, named / default) go into one raw transaction that is parsed once.
+    Returns job index -> Output object, or None where parsing failed."""
+    groups = {}
+    for i, j in enumerate(jobs):
+        if j['route'] in PARSE_ROUTES:
+            groups.setdefault((j['route'], j['y'], bool(j.get('dflt'))), []).append(i)
+    res = {}
+    for (route, y, dflt), idx in groups.items():
+        raw = raw_transaction([bytes(built[keys[i]]['script']) for i in idx])
+        try:
+            outs = list(parse_outputs(route, raw, None if dflt else y))
+        except Exception:
+            outs = []
+        for n, i in enumerate(idx):
+            res[i] = outs[n] if n < len(outs) else None
+    return res
+     # akey: the key's Address object (key.address_obj) is handed over
 
 
 _FRESH_ADDR = {}
@@ -169,7 +240,13 @@ def build_key(job):
     """Which build does a job need?  (hashable key, build record)"""
     r = job['route']
     p = list(bytes.fromhex(job['p']))
-    if r in ('lock', 'lock_ns', 'parse_out'):
+    if r in ANY_ROUTES:
+        cands = job['cands']
+        key = ('cands', job['y'], json.dumps(cands))
+        return key, {'what': 'cands', 'x': job['y'], 'y': job['y'], 'dk': '', 'wv': 0, 'p': [], 'mut': '', 'wt': '',
+                     'ms': False, 'pub': [], 'st': '',
+                     'cands': [{'dk': c[0], 'wv': c[1], 'p': list(bytes.fromhex(c[2]))} for c in cands]}
+    if r in REV_ROUTES:
         key = ('script', job['y'], job['dk'], job['wv'], job['p'], job['mut'])
         return key, {'what': 'script', 'x': job['y'], 'y': job['y'], 'dk': job['dk'], 'wv': job['wv'], 'p': p,
                      'mut': job['mut'], 'wt': '', 'ms': False, 'pub': [], 'st': ''}
@@ -196,7 +273,9 @@ def build_key(job):
 
 # ------------------------------------------------------------------------------------------------ drive (code under test)
 
-def _observe(make):
+def _observe(make, nw=None):
+    """Observe an output; nw: the network the caller named (the way back - paying to the reported address - is asked on
+    that network; without it on the network the output reports)."""
     from bitcoinlib.transactions import Output  # noqa
     try:
         o = make()
@@ -228,28 +307,55 @@ def _observe(make):
     obs['rtok'], obs['rtlock'] = False, []
     if obs['addr']:
         try:
-            obs['rtlock'] = list(Output(1000, address=text(obs['addr']), network=obs['nw']).lock_script)
+            obs['rtlock'] = list(Output(1000, address=text(obs['addr']), network=nw or obs['nw']).lock_script)
             obs['rtok'] = True
         except Exception:
             pass
     return obs
 
 
-def drive(job, b):
+def new_tx(job):
+    """The transaction an output is added to: network y, witness type legacy / segwit / left to the default."""
+    from bitcoinlib.transactions import Transaction
+    kw = {'witness_type': job['txwt']} if job.get('txwt') else {}
+    return Transaction(network=job['y'], **kw)
+
+
+def drive(job, b, parsed=None):
     """Run one job against bitcoinlib; returns the record to be judged."""
     from bitcoinlib.transactions import Output, Transaction
     from bitcoinlib.keys import Address, HDKey
     r = job['route']
     y = job['y']
     p = bytes.fromhex(job['p'])
-    if r in ('lock', 'lock_ns', 'parse_out'):
+    if r in ANY_ROUTES:
+        def mk():
+            t = new_tx(job)
+            if r == 'tx_hash':
+                t.add_output(1000, public_hash=p)
+            else:
+                t.add_output(1000, public_key=bytes.fromhex(job['pub']))
+            return t.outputs[-1]
+        return {'k': 'any', 'route': r, 'y': y, 'cands': [{'dk': c[0], 'wv': c[1], 'p': list(bytes.fromhex(c[2]))}
+                                                            for c in job['cands']],
+                'obs': _observe(mk, y), 'facts': b['facts']}
+    if r in REV_ROUTES:
         s = bytes(b['script'])
-        if r == 'parse_out':
+        if r in PARSE_ROUTES:
+            obs = _observe(lambda: parsed if parsed is not None else 1 // 0, y)
+        elif r == 'parse_out':
             from io import BytesIO
             raw = (1000).to_bytes(8, 'little') + bytes([len(s)]) + s
-            obs = _observe(lambda: Output.parse(BytesIO(raw), network=y))
+            kw = {} if job.get('dflt') else {'network': y}
+            obs = _observe(lambda: Output.parse(BytesIO(raw), **kw), y)
+        elif r == 'tx_lock':
+            def mk():
+                t = new_tx(job)
+                t.add_output(1000, lock_script=s)
+                return t.outputs[-1]
+            obs = _observe(mk, y)
         else:
-            obs = _observe(lambda: Output(1000, lock_script=s, network=y, strict=(r == 'lock')))
+            obs = _observe(lambda: Output(1000, lock_script=s, network=y, strict=(r == 'lock')), y)
         return {'k': 'rev', 'route': r, 'y': y, 's': list(s), 'strict': r != 'lock_ns', 'obs': obs, 'facts': b['facts']}
 
     a0 = text(b['addr'])
@@ -263,13 +369,13 @@ def drive(job, b):
            'pu': list(bytes.fromhex(job.get('pu', ''))), 'ot': '', 'h': list(p)}
     st = job.get('st') or None
     if r == 'str':
-        rec['obs'] = _observe(lambda: Output(1000, address=a0, network=y))
+        rec['obs'] = _observe(lambda: Output(1000, address=a0, network=y), y)
     elif r == 'tx':
         def mk():
-            t = Transaction(network=y)
+            t = new_tx(job)
             t.add_output(1000, a0)
             return t.outputs[-1]
-        rec['obs'] = _observe(mk)
+        rec['obs'] = _observe(mk, y)
     elif r in OBJ_ROUTES:
         try:
             if r == 'parse':
@@ -312,17 +418,17 @@ def drive(job, b):
         rec['oa'] = codes(oa)
         if r in ('tx_obj', 'tx_hdkey', 'tx_akey'):
             def mk():
-                t = Transaction(network=y)
+                t = new_tx(job)
                 t.add_output(1000, obj)
                 return t.outputs[-1]
-            rec['obs'] = _observe(mk)
+            rec['obs'] = _observe(mk, y)
         else:
-            rec['obs'] = _observe(lambda: Output(1000, address=obj, network=y))
+            rec['obs'] = _observe(lambda: Output(1000, address=obj, network=y), y)
     elif r == 'hash':
         kw = {'witver': job['wv']} if job['wv'] >= 0 else {}      # -1: the witness version argument is left out
         if job.get('enc'):
             kw['encoding'] = job['enc']
-        rec['obs'] = _observe(lambda: Output(1000, public_hash=p, script_type=st, network=y, **kw))
+        rec['obs'] = _observe(lambda: Output(1000, public_hash=p, script_type=st, network=y, **kw), y)
     elif r == 'pubkey':
         pub = bytes.fromhex(job['pub'])
         if prior:
@@ -330,7 +436,7 @@ def drive(job, b):
             apply_priors(KEY_PRIORS, k, prior)
             pub = k.public_byte
         kw = {'encoding': job['enc']} if job.get('enc') else {}
-        rec['obs'] = _observe(lambda: Output(1000, public_key=pub, script_type=st, network=y, **kw))
+        rec['obs'] = _observe(lambda: Output(1000, public_key=pub, script_type=st, network=y, **kw), y)
     else:
         raise common.MachineryError('unknown route %r' % r)
     return rec
@@ -359,6 +465,9 @@ def payload(rng, n, style):
     if n >= 2 and n not in (20, 32, 40) and b[1] == n - 2:
         b = b[:1] + bytes([(n + 7) % 256]) + b[2:]     # same for the 'embedded' shape
     return b
+
+
+TXWT = ['', 'legacy', 'segwit']        # witness type of the transaction an output is added to ('' = not given)
 
 
 def enumerate_jobs(rng, thorough, nets, allow_uncompressed=False):
@@ -393,9 +502,13 @@ def enumerate_jobs(rng, thorough, nets, allow_uncompressed=False):
             # an Address object of network x handed to an output / transaction of every network y (ordered pairs)
             for y in nets:
                 job('obj', x, y, d, p, st=lib_type(d[0], d[1], d[2]))
-                job('tx_obj', x, y, d, p, st=lib_type(d[0], d[1], d[2]))
+                for txwt in (TXWT[1:] if y == x or thorough else [rng.choice(TXWT)]):
+                    job('tx_obj', x, y, d, p, st=lib_type(d[0], d[1], d[2]), txwt=txwt)
+            for txwt in TXWT:
+                job('tx', x, x, d, p, txwt=txwt)
             for y in others(x, 2 if not thorough else 10):
-                job('tx', x, y, d, p)
+                if y != x:
+                    job('tx', x, y, d, p, txwt=rng.choice(TXWT))
                 job('parse', x, y, d, p)
                 if y == x:
                     job('obj', x, y, d, p, st=lib_type(d[0], d[1], d[2]), prior=[rng.choice(sorted(ADDR_PRIORS))])
@@ -427,7 +540,12 @@ def enumerate_jobs(rng, thorough, nets, allow_uncompressed=False):
 
             def kjob(route, y, prior, x0='', variant='master'):
                 jobs.append({'route': route, 'x': x, 'y': y, 'dk': '', 'wv': 0, 'p': '', 'st': '', 'mut': '', 'wt': wt,
-                             'ms': ms, 'variant': variant, 'seed': seed.hex(), 'prior': prior, 'x0': x0})
+                             'ms': ms, 'variant': variant, 'seed': seed.hex(), 'prior': prior, 'x0': x0,
+                             'txwt': rng.choice(TXWT) if route.startswith('tx_') else ''})
+            if not ms:
+                for txwt in TXWT[1:]:
+                    kjob('tx_hdkey', x, [])
+                    jobs[-1]['txwt'] = txwt
             # an HD key of network x handed to an output / transaction of every network y (ordered pairs)
             for y in (nets if not ms or thorough else others(x, 2)):
                 kjob('hdkey', y, [])
@@ -486,6 +604,24 @@ def enumerate_jobs(rng, thorough, nets, allow_uncompressed=False):
                 jobs.append({'route': 'pubkey', 'x': y, 'y': y, 'dk': '', 'wv': 0, 'p': '', 'st': st, 'mut': '', 'wt': '',
                              'seed': seed.hex(), 'prior': [rng.choice(['addr_p2pkh_base58', 'addr_p2wpkh_bech32', 'wif',
                                                                        'public', 'as_dict'])]})
+        # -- add_output by raw script / untyped hash / untyped key, for each witness type of the transaction
+        futures = [('wit', v, n) for v in (range(1, 17) if y in sweep or thorough else (2, 16)) for n in (20, 32)
+                   if (v, n) != (1, 32)]
+        pay = {d: payload(rng, d[2], 'rand') for d in STD + futures}
+        for txwt in TXWT[1:] + ([''] if thorough else []):
+            for d in STD + [f for f in futures if f[1] in (2, 16)]:
+                job('tx_lock', y, y, d, pay[d], mut='none', txwt=txwt)
+            for n in (20, 32):
+                h = payload(rng, n, 'rand').hex()
+                cands = [['pkh', 0, h], ['sh', 0, h], ['wit', 0, h]] if n == 20 else [['wit', 0, h], ['wit', 1, h]]
+                jobs.append({'route': 'tx_hash', 'x': y, 'y': y, 'dk': '', 'wv': 0, 'p': h, 'st': '', 'mut': '', 'wt': '',
+                             'txwt': txwt, 'cands': cands})
+            jobs.append({'route': 'tx_pubkey', 'x': y, 'y': y, 'dk': '', 'wv': 0, 'p': '', 'st': '', 'mut': '', 'wt': '',
+                         'txwt': txwt, 'seed': payload(rng, 32, 'rand').hex(), 'cands': []})
+        # -- scripts that reach an Output through parsing, the network named by the caller
+        for route in PARSE_ROUTES:
+            for d in STD + (futures if route in ('p_str', 'blk') or thorough else [f for f in futures if f[1] in (2, 16)]):
+                job(route, y, y, d, pay[d], mut='none')
         # -- raw locking scripts: intact templates, future witness programs, damaged templates
         for route in ('lock', 'lock_ns') + (('parse_out',) if thorough or y == nets[0] else ()):
             for d in STD:
@@ -506,6 +642,11 @@ def enumerate_jobs(rng, thorough, nets, allow_uncompressed=False):
             job(route, y, y, ('wit', 11, 3), payload(rng, 3, 'embedded'), mut='none')
             job(route, y, y, ('wit', 1, 21), payload(rng, 21, 'embedded'), mut='none')
             job(route, y, y, ('wit', 1, 33), payload(rng, 33, 'key'), mut='trail_nop')
+    # -- parsing without naming a network: the library's default network (bitcoin) is the one named
+    if 'bitcoin' in nets:
+        for route in PARSE_ROUTES + ('parse_out',):
+            for d in STD + [('wit', 16, 32)]:
+                job(route, 'bitcoin', 'bitcoin', d, payload(rng, d[2], 'rand'), mut='none', dflt=True)
     return jobs
 
 
@@ -514,7 +655,7 @@ def prepare_keys(jobs):
     its HASH160 is computed with the reference primitive."""
     from bitcoinlib.keys import HDKey
     for j in jobs:
-        if j['route'] in KEY_ROUTES + ('pubkey',) and not j['p']:
+        if j['route'] in KEY_ROUTES + ('pubkey', 'tx_pubkey') and not j['p']:
             ck_ = (j['seed'], j.get('variant'))
             if ck_ not in _PUBS:
                 k = make_key(j, j['x'])
@@ -523,13 +664,15 @@ def prepare_keys(jobs):
             j['pub'] = pub.hex()
             j['p'] = ref.hash160(pub).hex()
             j['pu'] = ref.hash160(pubu).hex()
+            if j['route'] == 'tx_pubkey':
+                j['cands'] = [['pkh', 0, j['p']], ['wit', 0, j['p']]]
 
 
 def klass(job, b):
     rel = 'same' if job['x'] == job['y'] else 'other'
     return (job['route'], job['dk'] or job['wt'], job['wv'], len(job['p']) // 2, job['mut'], job['st'], job['x'],
             job['y'] if job['route'] in ('str', 'lock') else rel, tuple(job.get('prior') or ()), bool(job.get('x0')),
-            bool(job.get('ms')), job.get('variant') or '', job.get('enc') or '')
+            bool(job.get('ms')), job.get('variant') or '', job.get('enc') or '', job.get('txwt') or '', bool(job.get('dflt')))
 
 
 def run(replay=None):
@@ -579,7 +722,8 @@ def run(replay=None):
     built = build_all(reqs)
     lap('%d inputs built by TLC' % len(reqs))
 
-    recs = [drive(j, built[k]) for j, k in zip(jobs, keys)]
+    parsed = drive_parsers(jobs, keys, built)
+    recs = [drive(j, built[k], parsed.get(i)) for i, (j, k) in enumerate(zip(jobs, keys))]
     lap('%d jobs driven' % len(jobs))
     verdicts = common.tlc_eval('AddrScriptEval', recs, env=JVM_ENV, procs=min(8 if not thorough else 16, common.NCPU))
     lap('judged')
@@ -600,10 +744,17 @@ def run(replay=None):
                 if rec['hasobj']:
                     what += ' [object address %s%s]' % (text(rec['oa']) if rec['objok'] else 'refused',
                                                         ', object script_type %s' % rec['ot'] if rec['ot'] else '')
+                if j.get('txwt'):
+                    what += ' [transaction witness_type %s]' % j['txwt']
                 if rec['prior'] or j.get('x0'):
                     what += ' [object created on %s, earlier calls on it: %s]' % (j.get('x0') or j['x'], ', '.join(rec['prior']))
+            elif rec['k'] == 'any':
+                what = 'Transaction(network=%s, witness_type=%s).add_output via %s of %s (no script type)' % (
+                    j['y'], j.get('txwt') or 'default', j['route'], j['p'])
             else:
-                what = 'Output(lock_script=%s, network=%s, strict=%s)' % (bytes(rec['s']).hex(), j['y'], rec['strict'])
+                what = 'script %s via %s, network %s%s%s' % (
+                    bytes(rec['s']).hex(), j['route'], j['y'], ' (left to the default)' if j.get('dflt') else '',
+                    ', transaction witness_type %s' % j['txwt'] if j.get('txwt') else '')
             exp = v['exp']
             exp = (bytes(exp).hex() if v['v'] in ('lock-script', 'public-hash', 'standard-destination-refused') else text(exp)) \
                 if isinstance(exp, list) and all(isinstance(e, int) for e in exp) else exp
@@ -618,6 +769,8 @@ def run(replay=None):
                 or j.get('prior') or j.get('st') not in ('', 'p2tr'):
             continue
         n = len(j['p']) // 2
+        if rec['k'] == 'any':
+            continue
         if rec['k'] == 'rev' and n not in (20, 32):
             continue      # other sizes: whether the parser re-reads the program as a sub-script depends on its bytes (C18)
         if rec['k'] == 'fwd' and j['route'] not in ('str', 'tx', 'hash'):
@@ -640,7 +793,7 @@ def run(replay=None):
         if jobs:
             r = recs[i]
             ck.sample({'job': {k: v for k, v in jobs[i].items() if v not in ('', None)},
-                       'input': text(r['a0']) if r['k'] == 'fwd' else bytes(r['s']).hex(),
+                       'input': text(r['a0']) if r['k'] == 'fwd' else bytes(r.get('s', [])).hex(),
                        'observed': {'ok': r['obs']['ok'], 'lock': bytes(r['obs']['lock']).hex(), 'type': r['obs']['type'],
                                     'address': text(r['obs']['addr'])}, 'verdict': verdicts[i]['v']}, limit=5)
     ck.notes['builds'] = len(reqs)
